@@ -322,7 +322,7 @@ int main(int argc, char **argv)
             {
                 std::vector<uint32_t> pre;
                 for (const auto &ch : src.path) {
-                    pre.push_back(static_cast<uint32_t>(ch.v));
+                    pre.push_back(tapeUnmix(static_cast<uint32_t>(ch.v)));
                 }
                 writeCur(pre);
             }
